@@ -18,7 +18,8 @@ class Unencodable(object):
         return "unencodable-object"
 
 
-def make_doc(c):
+def make_doc(c, first=None):
+    """first: called with the still valid, fault-free document before it is edited into the case's state"""
     doc = odml.Document(author="a", version="1")
     s1 = odml.Section(name="s1", type="t", parent=doc)
     s2 = odml.Section(name="s2", type="t", parent=doc)
@@ -28,6 +29,8 @@ def make_doc(c):
     sub1 = odml.Section(name="sub", type="t", parent=s1)
     subp = odml.Property(name="sp", values=[3], parent=sub1)
     deep = odml.Section(name="deep", type="t", parent=sub1)
+    if first is not None:
+        first(doc)
     if v == "warnings":
         s2.type = "n.s."
     elif v == "missing-type":
@@ -76,9 +79,38 @@ def replay(c):
         rfmt = fmt[4:] if rdf else None
         ext = EXT.get(fmt, "." + {"xml": "rdf", "turtle": "ttl", "nt": "nt", "n3": "n3", "json-ld": "jsonld", "bogus": "bogus"}.get(rfmt, "x"))
         target = os.path.join(d, "doc" + ext)
+        given = target
+        if c.get("tname") == "noext":
+            # odml.save appends ".<backend>" to a name without extension: that file is the one at stake
+            given = os.path.join(d, "doc")
+            target = given + "." + ("RDF" if rdf else fmt)
+            if "." in given:
+                raise C.MachineryError("scratch path contains a dot: %s" % given)
         if c["file"] == "old":
             open(target, "w").write(OLD)
-        doc = make_doc(c)
+        holder = {}
+        def first(valid_doc):
+            # the writer object saves the still valid document to another path
+            e = c["entry"]
+            other = os.path.join(d, "earlier" + ext)
+            if e == "ODMLWriter.write_file":
+                holder["w"] = ODMLWriter("RDF" if rdf else fmt)
+                if rdf:
+                    holder["w"].write_file(valid_doc, other, rdf_format="xml" if rfmt == "bogus" else rfmt)
+                else:
+                    holder["w"].write_file(valid_doc, other)
+            elif e == "XMLWriter.write_file":
+                holder["w"] = XMLWriter(valid_doc)
+                holder["w"].write_file(other)
+            else:
+                holder["w"] = RDFWriter(valid_doc)
+                holder["w"].write_file(other, rdf_format="xml" if rfmt == "bogus" else rfmt)
+        reused = c.get("prior") == "reused"
+        if reused:
+            with C.quiet():
+                doc = make_doc(c, first)
+        else:
+            doc = make_doc(c)
         before_listing = sorted(os.listdir(d))
         before = state_of(target, False)
         out, exc, warned = "saved", "none", False
@@ -95,18 +127,19 @@ def replay(c):
                 e = c["entry"]
                 if e == "odml.save":
                     if rdf:
-                        odml.save(doc, target, "RDF", rdf_format=rfmt)
+                        odml.save(doc, given, "RDF", rdf_format=rfmt)
                     else:
-                        odml.save(doc, target, fmt, **kw)
+                        odml.save(doc, given, fmt, **kw)
                 elif e == "ODMLWriter.write_file":
+                    wr = holder["w"] if reused else ODMLWriter("RDF" if rdf else fmt)
                     if rdf:
-                        ODMLWriter("RDF").write_file(doc, target, rdf_format=rfmt)
+                        wr.write_file(doc, target, rdf_format=rfmt)
                     else:
-                        ODMLWriter(fmt).write_file(doc, target, **kw)
+                        wr.write_file(doc, target, **kw)
                 elif e == "XMLWriter.write_file":
-                    XMLWriter(doc).write_file(target, **kw)
+                    (holder["w"] if reused else XMLWriter(doc)).write_file(target, **kw)
                 else:
-                    RDFWriter(doc).write_file(target, rdf_format=rfmt)
+                    (holder["w"] if reused else RDFWriter(doc)).write_file(target, rdf_format=rfmt)
             except Exception as ex:
                 out, exc = "raised", type(ex).__name__
             warned = any("unresolved issues" in str(w.message) for w in wl)
